@@ -312,3 +312,8 @@ B('C08.rrsig-times-swapped-both-sides', ['C08'], [
 B('C03.ldap-indefinite-length-accepted', ['C03'], [(P + 'tls/ldap.py', "        if bytes(parsable[1:2]) == b'\\x80':\n", "        if bytes(parsable[1:2]) == b'\\x81':\n")], mention=['indefinite'])
 N('benign.ldap-indefinite-by-index', [(P + 'tls/ldap.py', "        if bytes(parsable[1:2]) == b'\\x80':\n", "        if len(parsable) > 1 and bytearray(parsable)[1] == 0x80:\n")])
 B('C02.index-guard-off-by-one', ['C02'], [(P + 'tls/ldap.py', "        if bytes(parsable[1:2]) == b'\\x80':\n", "        if len(parsable) > 0 and bytearray(parsable)[1] == 0x80:\n")], mention=['IndexError'])
+_GREASE_OLD = "            try:\n                self.code = self.get_grease_enum().from_code(self.code).value.code\n                value_type = TlsInvalidType.GREASE\n            except InvalidValue:\n                value_type = TlsInvalidType.UNKNOWN\n        self.value = self.get_param_class()(self.code, value_type)\n"
+_GREASE_MEMO = "            value_type = self._value_type_of(self.code)\n        self.value = self.get_param_class()(self.code, value_type)\n\n    _VALUE_TYPES = {}\n\n    @classmethod\n    def _value_type_of(cls, code):\n        if %s not in cls._VALUE_TYPES:\n            try:\n                cls.get_grease_enum().from_code(code)\n                value_type = TlsInvalidType.GREASE\n            except InvalidValue:\n                value_type = TlsInvalidType.UNKNOWN\n            cls._VALUE_TYPES[%s] = value_type\n        return cls._VALUE_TYPES[%s]\n"
+N('benign.grease-memo-keyed-by-class-and-code', [(P + 'tls/grease.py', _GREASE_OLD, _GREASE_MEMO % ('(cls, code)', '(cls, code)', '(cls, code)'))])
+B('C15.grease-memo-keyed-by-code-only', ['C15', 'C19'], [(P + 'tls/grease.py', _GREASE_OLD, _GREASE_MEMO % ('code', 'code', 'code'))], mention=['_VALUE_TYPES'])
+B('C10.grease-helper-wrong-mask', ['C10', 'C15'], [(P + 'tls/grease.py', _GREASE_OLD, "            value_type = self._value_type_of(self.code)\n        self.value = self.get_param_class()(self.code, value_type)\n\n    @classmethod\n    def _value_type_of(cls, code):\n        if code & 0x0f == 0x0a and (code >> 8) & 0x0f in (0x0a, 0x00):\n            return TlsInvalidType.GREASE\n        return TlsInvalidType.UNKNOWN\n")], mention=['grease-decision'])
